@@ -10,8 +10,13 @@ open PsVerif.Model
 /-- postcondition of every function of the mutual block, relative to the start state `s`
 and the budget `m` -/
 structure Good (m : Nat) (s : State) (p : State × Res) : Prop where
-  mono : s.numOps ≤ p.1.numOps
+  /-- the counter does not decrease, unless it was put beyond `m + 1` from outside: the
+  budget error saturates it at `m + 1` -/
+  mono : (0 < m → s.numOps ≤ m + 1) → s.numOps ≤ p.1.numOps
   cap : 0 < m → s.numOps ≤ m → (p.2 ≠ .err .limit → p.1.numOps ≤ m) ∧ p.1.numOps ≤ m + 1
+  /-- saturation: from at most `m + 1` (e.g. after an earlier call that ended with the budget
+  error) the counter stays at most `m + 1` -/
+  sat : 0 < m → s.numOps ≤ m + 1 → p.1.numOps ≤ m + 1
   depth : p.1.execDepth = s.execDepth
   errs : p.1.errors.length = s.errors.length
   hiD : p.1.hiDepth ≤ max s.hiDepth execDepthLimit
@@ -33,6 +38,7 @@ theorem Same.trans {a b c : State} (h1 : Same a b) (h2 : Same b c) : Same a c :=
 theorem good_of_same {m : Nat} {s s' : State} (r : Res) (h : Same s s') : Good m s (s', r) where
   mono := by simp [h.n]
   cap := by intro _ hm; simp only [h.n]; exact ⟨fun _ => hm, by omega⟩
+  sat := by intro _ hm; simp only [h.n]; exact hm
   depth := h.d
   errs := by simp [h.e]
   hiD := by simp only [h.hd]; omega
@@ -42,6 +48,7 @@ theorem good_of_same {m : Nat} {s s' : State} (r : Res) (h : Same s s') : Good m
 theorem good_start {m : Nat} {s0 s : State} {p : State × Res} (h : Same s0 s) (g : Good m s p) : Good m s0 p where
   mono := by have := g.mono; rw [h.n] at this; exact this
   cap := by intro hm hs; have := g.cap hm (by rw [h.n]; exact hs); exact this
+  sat := by intro hm hs; have := g.sat hm (by rw [h.n]; exact hs); exact this
   depth := by rw [g.depth, h.d]
   errs := by rw [g.errs, h.e]
   hiD := by have := g.hiD; rw [h.hd] at this; exact this
@@ -51,6 +58,7 @@ theorem good_start {m : Nat} {s0 s : State} {p : State × Res} (h : Same s0 s) (
 theorem good_end {m : Nat} {s s1 s2 : State} {r : Res} (g : Good m s (s1, r)) (h : Same s1 s2) : Good m s (s2, r) where
   mono := by have := g.mono; simp only [h.n]; exact this
   cap := by intro hm hs; have := g.cap hm hs; simp only [h.n]; exact this
+  sat := by intro hm hs; have := g.sat hm hs; simp only [h.n]; exact this
   depth := by simp only [h.d]; exact g.depth
   errs := by simp only [h.e]; exact g.errs
   hiD := by simp only [h.hd]; exact g.hiD
@@ -59,11 +67,12 @@ theorem good_end {m : Nat} {s s1 s2 : State} {r : Res} (g : Good m s (s1, r)) (h
 /-- sequencing: the first call did not hit the limit, then a second call -/
 theorem good_seq {m : Nat} {s s1 : State} {r1 : Res} {p : State × Res}
     (g1 : Good m s (s1, r1)) (hr : r1 ≠ .err .limit) (g2 : Good m s1 p) : Good m s p where
-  mono := Nat.le_trans g1.mono g2.mono
+  mono := fun h => Nat.le_trans (g1.mono h) (g2.mono (fun hm => g1.sat hm (h hm)))
   cap := by
     intro hm hs
     have c1 := g1.cap hm hs
     exact g2.cap hm (c1.1 hr)
+  sat := fun hm hs => g2.sat hm (g1.sat hm hs)
   depth := by rw [g2.depth, g1.depth]
   errs := by rw [g2.errs, g1.errs]
   hiD := by have a := g1.hiD; have b := g2.hiD; simp only at a b ⊢; omega
@@ -126,6 +135,7 @@ theorem good_level {m : Nat} {s s' : State} {r : Res} (hd : s.execDepth < execDe
     Good m s ({ s' with execDepth := s'.execDepth - 1 }, r) where
   mono := g.mono
   cap := g.cap
+  sat := g.sat
   depth := by have := g.depth; simp only at this ⊢; omega
   errs := g.errs
   hiD := by have := g.hiD; simp only at this ⊢; omega
@@ -153,6 +163,7 @@ theorem good_change_res {m : Nat} {s s1 s2 : State} {r : Res} (r' : Res) (g : Go
     have c := g.cap hm hs
     simp only [h.n]
     exact ⟨fun _ => c.1 hr, c.2⟩
+  sat := by intro hm hs; have := g.sat hm hs; simp only [h.n]; exact this
   depth := by simp only [h.d]; exact g.depth
   errs := by simp only [h.e]; exact g.errs
   hiD := by simp only [h.hd]; exact g.hiD
@@ -178,19 +189,28 @@ theorem step_execBody {m n : Nat} (ih : AllGood m n) (s : State) (o : Obj) (b : 
 /-- entering `recurseTail`: the counter was incremented and the limit test passed -/
 theorem good_incr {m : Nat} {s : State} {p : State × Res} (hnl : ¬ (m > 0 ∧ s.numOps + 1 > m))
     (g : Good m { s with numOps := s.numOps + 1 } p) : Good m s p where
-  mono := by have := g.mono; simp only at this; omega
+  mono := by
+    intro h
+    have := g.mono (by intro hm; simp only; omega)
+    simp only at this; omega
   cap := by
     intro hm _
     have : s.numOps + 1 ≤ m := by omega
     exact g.cap hm this
+  sat := by
+    intro hm _
+    have : s.numOps + 1 ≤ m := by omega
+    exact g.sat hm (by simp only; omega)
   depth := g.depth
   errs := g.errs
   hiD := g.hiD
   hiE := g.hiE
 
-theorem good_limit {m : Nat} (s : State) : Good m s ({ s with numOps := s.numOps + 1 }, .err .limit) where
-  mono := by simp
+theorem good_limit {m : Nat} (s : State) (hl : m > 0 ∧ s.numOps + 1 > m) :
+    Good m s ({ s with numOps := m + 1 }, .err .limit) where
+  mono := by intro h; have := h hl.1; simp only; omega
   cap := by intro _ hs; simp only; exact ⟨fun h => absurd rfl h, by omega⟩
+  sat := by intro _ _; simp only; omega
   depth := rfl
   errs := rfl
   hiD := by simp only; omega
@@ -203,6 +223,7 @@ theorem good_handler {m : Nat} {s1 s3 : State} {r3 : Res} (name : ErrName)
     Good m s1 ({ s3 with errors := s3.errors.drop (s3.errors.length - s1.errors.length) }, r3) where
   mono := g3.mono
   cap := g3.cap
+  sat := g3.sat
   depth := g3.depth
   errs := by
     have := g3.errs
@@ -286,7 +307,8 @@ theorem step_execTail {m n : Nat} (ih : AllGood m n) (s : State) (o : Obj) (b c 
   unfold execTail
   dsimp only
   split
-  · exact good_limit s
+  · rename_i hl
+    exact good_limit s hl
   · rename_i hnl
     apply good_incr hnl
     split
